@@ -453,6 +453,9 @@ def run(ctx):
 
 _P = 'billiard/pool.py'
 MUTANTS = [
+    ('sentinel-does-not-end-the-worker', 'billiard/pool.py', "            if req is None:\n                debug('worker got sentinel -- exiting')\n                raise SystemExit(EX_FAILURE)\n", "            if req is None:\n                debug('worker got sentinel -- exiting')\n", 'R07.15'),
+    ('dead-pipe-does-not-end-the-worker', 'billiard/pool.py', "                debug('worker got %s -- exiting', type(exc).__name__)\n                raise SystemExit(EX_FAILURE)\n", "                debug('worker got %s -- exiting', type(exc).__name__)\n                return None\n", 'R07.15'),
+    ('worker-listed-after-it-was-started', 'billiard/pool.py', "        self._pool.append(w)\n        self._process_register_queues(w, (inq, outq, synq))\n        w.name = w.name.replace('Process', 'PoolWorker')\n        w.daemon = True\n        w.index = i\n        w.start()\n", "        self._process_register_queues(w, (inq, outq, synq))\n        w.name = w.name.replace('Process', 'PoolWorker')\n        w.daemon = True\n        w.index = i\n        w.start()\n        self._pool.append(w)\n", 'R07.16'),
     ('tables-registered-after-the-hook', _P, "        self._poolctrl[w.pid] = sentinel\n        self._on_ready_counters[w.pid] = on_ready_counter\n        if self.on_process_up:\n            self.on_process_up(w)\n",
      "        if self.on_process_up:\n            self.on_process_up(w)\n        self._poolctrl[w.pid] = sentinel\n        self._on_ready_counters[w.pid] = on_ready_counter\n", 'R07.14'),
     ('join-waits-for-the-scanner', _P, "        debug('result handler joined')\n        for i, p in enumerate(self._pool):\n",
